@@ -90,7 +90,7 @@ def assign_case(draw, tier="quick"):
         vals = draw(V.mixed_column(min_size=n, max_size=n))
     else:
         vals = draw(V.column(kind=kind, min_size=n, max_size=n, elements=_small(kind)))[1]
-    if kind in ("int", "float") and n and draw(st.integers(0, 5)) == 0:
+    if kind in ("int", "float") and n and draw(st.integers(0, 2)) == 0:
         # a column that still holds an element of a lower rung (Vector([1, True, 3]) is an int vector): promotion converts it too
         vals = list(vals)
         vals[draw(st.integers(0, n - 1))] = draw(st.booleans()) if kind == "int" else draw(st.integers(-3, 3))
